@@ -10,11 +10,24 @@ import (
 	"fmt"
 	"os"
 	"sort"
+	"strconv"
+	"strings"
 	"sync"
 	"time"
 
 	"golang.org/x/tools/go/ssa"
 )
+
+var forceChoices []int
+
+func init() {
+	if s := os.Getenv("VERIF_FORCE"); s != "" {
+		for _, f := range strings.Split(s, ",") {
+			v, _ := strconv.Atoi(f)
+			forceChoices = append(forceChoices, v)
+		}
+	}
+}
 
 type evKind uint8
 
@@ -241,8 +254,10 @@ func (w *Worker) mergeStats() {
 
 // runJob explores the subtree below the job's prefix.
 func (w *Worker) runJob(j job) {
-	// reset solver to level 0
+	// reset solver: level 0 stays empty, level 1 holds the facts asserted
+	// before the first decision of this job
 	w.solver.Pop(w.solver.levels)
+	w.solver.Push()
 	w.events = j.prefix
 	w.base = len(j.prefix) - 1 // the last prefix event may still have alternatives (values, choices)
 	if w.base < 0 {
@@ -276,6 +291,7 @@ func (w *Worker) runJob(j job) {
 			}
 			ns.Queries, ns.NSat, ns.NUnsat, ns.NUnknown, ns.SolverTime = q, sa, un, uk, st
 			w.solver = ns
+			w.solver.Push()
 			w.synced = 0
 			w.modelOK = false
 		}
@@ -415,6 +431,30 @@ func (w *Worker) runPath() {
 		if _, ok := w.funcs[name]; !ok {
 			w.funcs[name] = in.prog.Fset.Position(f.Pos()).Filename
 		}
+	}
+	if pl := os.Getenv("VERIF_PATHLOG"); pl != "" {
+		var sb []byte
+		for _, ev := range w.events {
+			switch ev.kind {
+			case evBranch:
+				if ev.taken {
+					sb = append(sb, 'T')
+				} else {
+					sb = append(sb, 'F')
+				}
+			case evChoice:
+				sb = append(sb, byte('0'+ev.choice%10), byte('0'+ev.choice/10))
+			case evValue:
+				sb = append(sb, []byte(fmt.Sprintf("v%d.", ev.val))...)
+			case evFact:
+				sb = append(sb, '.')
+			}
+		}
+		w.sh.mu.Lock()
+		f, _ := os.OpenFile(pl, os.O_APPEND|os.O_CREATE|os.O_WRONLY, 0o644)
+		fmt.Fprintf(f, "%s %s\n", status, sb)
+		f.Close()
+		w.sh.mu.Unlock()
 	}
 	switch status {
 	case PathUnsupported, PathBudget, PathUnknown:
@@ -617,15 +657,31 @@ func (in *Interp) choose(n int, what string) int {
 		}
 		if w.pos >= w.synced {
 			ev.lvl = w.solver.levels
+			w.solver.Push() // every decision owns a level, so later facts are popped with it
 			w.synced = w.pos + 1
 		}
 		w.pos++
 		return ev.choice
 	}
-	w.events = append(w.events, Event{kind: evChoice, choice: 0, n: n, lvl: w.solver.levels})
+	first := 0
+	nn := n
+	if len(forceChoices) > 0 {
+		k := 0
+		for _, ev := range w.events {
+			if ev.kind == evChoice {
+				k++
+			}
+		}
+		if k < len(forceChoices) {
+			first = forceChoices[k]
+			nn = first + 1
+		}
+	}
+	w.events = append(w.events, Event{kind: evChoice, choice: first, n: nn, lvl: w.solver.levels})
+	w.solver.Push()
 	w.pos++
 	w.synced = w.pos
-	return 0
+	return first
 }
 
 // assume adds a fact to the path condition.
